@@ -23,7 +23,7 @@ WIDTH_ERR = ("matching bitwidth", "too wide", "not a valid binop operand", "Cann
 
 def plan(tier, seed):
   q = tier == "quick"
-  return [{"hashseed": (seed * 71 + i) % 1069, "designs": 25 if q else 300, "nearmiss": 80 if q else 1500, "part": i} for i in range(16)]
+  return [{"hashseed": (seed * 71 + i) % 1069, "designs": 25 if q else 300, "nearmiss": 200 if q else 1500, "part": i} for i in range(16)]
 
 
 def thresholds(tier):
